@@ -62,6 +62,20 @@ class Controller:
         return _type_key(x)
 
     def __call__(self, site, items):
+        # the controller itself calls str() on library types: keep that out of the simulated
+        # execution (no logical steps, no yield points, no crash points inside the harness)
+        import sys
+
+        old = sys.gettrace()
+        if old is None:
+            return self._order(site, items)
+        sys.settrace(None)
+        try:
+            return self._order(site, items)
+        finally:
+            sys.settrace(old)
+
+    def _order(self, site, items):
         items = list(items)
         n = len(items)
         v = self.visits[site] = self.visits.get(site, 0) + 1
